@@ -3526,8 +3526,6 @@ static void jdf_generate_internal_init(const jdf_t *jdf, const jdf_function_entr
             vl = l2p_item->vl; assert(NULL != vl);
             if( NULL == (pl = l2p_item->pl) )
                 continue;
-            if(vl->expr->op != JDF_RANGE && vl->expr->local_variables == NULL)
-                continue;
             coutput("int32_t __%s_min = 0x7fffffff, __%s_max = 0;", vl->name, vl->name);
             coutput("int32_t %s%s_min = 0x7fffffff, %s%s_max = 0;",
                     JDF2C_NAMESPACE, vl->name, JDF2C_NAMESPACE, vl->name);
@@ -3660,7 +3658,10 @@ static void jdf_generate_internal_init(const jdf_t *jdf, const jdf_function_entr
 
         if( need_min_max ) {
             for(vl = f->locals; vl != NULL; vl = vl->next) {
-                if ( NULL != vl->expr->local_variables) {
+                /* Parameters that are not plain ranges (local indices, expressions) take their
+                 * bounds from the values they actually get over the execution space. */
+                if ( (NULL != vl->expr->local_variables) ||
+                     ((vl->expr->op != JDF_RANGE) && (NULL != local_is_parameter(f, vl))) ) {
                     coutput("%s    %s%s_min = parsec_imin(__jdf2c_%s_min, %s);\n",
                             indent(nesting), JDF2C_NAMESPACE, vl->name, vl->name, vl->name);
                     coutput("%s    %s%s_max = parsec_imax(__jdf2c_%s_max, %s);\n",
@@ -3793,14 +3794,9 @@ static void jdf_generate_internal_init(const jdf_t *jdf, const jdf_function_entr
             for(l2p_item = l2p; NULL != l2p_item; l2p_item = l2p_item->next) {
                 vl = l2p_item->vl;
                 if( NULL == (pl = l2p_item->pl) ) continue;
-                if(vl->expr->op == JDF_RANGE || NULL != vl->expr->local_variables) {
-                    coutput("  __parsec_tp->%s_%s_min   = %s%s_min;\n", f->fname, pl->name, JDF2C_NAMESPACE, pl->name);
-                    coutput("  __parsec_tp->%s_%s_range = (%s%s_max - %s%s_min) + 1;\n",
-                            f->fname, pl->name, JDF2C_NAMESPACE, pl->name, JDF2C_NAMESPACE, pl->name);
-                } else {
-                    coutput("  __parsec_tp->%s_%s_min   = 0;\n", f->fname, pl->name);
-                    coutput("  __parsec_tp->%s_%s_range = 1;  /* single value, not a range */\n", f->fname, pl->name);
-                }
+                coutput("  __parsec_tp->%s_%s_min   = %s%s_min;\n", f->fname, pl->name, JDF2C_NAMESPACE, pl->name);
+                coutput("  __parsec_tp->%s_%s_range = (%s%s_max - %s%s_min) + 1;\n",
+                        f->fname, pl->name, JDF2C_NAMESPACE, pl->name, JDF2C_NAMESPACE, pl->name);
             }
         }
     }
